@@ -21,7 +21,7 @@ def mc_cfgs(ctx: Ctx) -> list:
         stack = tb.gen_stack(rng, base, rng.randint(0, 2), force_tl=0.6)
         c = tb.gen_ac_policy(rng, tb.with_stack(base, stack), K=2)
         N = rng.choice([1, 2])
-        c.update(bufsize=rng.choice([2, 3, 4]) * N, lstarts=rng.choice([0, 1, 3]), nsteps=rng.choice([1, 2]), N=N)
+        c.update(bufsize=rng.choice([2, 3, 4]) * N, lstarts=rng.choice([0, 1, 3]), nsteps=rng.choice([1, 2]), N=N, an=2)
         cfgs.append(c)
     return cfgs
 
@@ -65,12 +65,28 @@ def record(ctx: Ctx, templates: list, per_template: int, iters: int = 4, cache=N
         for j in range(per_template):
             cfg = t["cfg"] if j == 0 else tb.vary(ctx.rng, t["cfg"])
             cfg = tb.gen_ac_policy(ctx.rng, cfg)
-            cfg.update(bufsize=t["bufsize"], lstarts=t["lstarts"], nsteps=t["nsteps"], N=t["N"])
+            cfg.update(bufsize=t["bufsize"], lstarts=t["lstarts"], nsteps=t["nsteps"], N=t["N"], an=ctx.rng.choice([1, 2, 3, 4]))
             seed = ctx.rng.randrange(2 ** 31)
             for tr in dof.record_offpolicy(cache, cfg, t["algo"], iters, seed):
+                cut_after_8_dones(tr)
                 traces.append(tr)
                 cases.append({"cfg": cfg, "algo": t["algo"], "iters": iters, "seed": seed, "env": tr["meta"]["env"]})
     return traces, cases
+
+
+def cut_after_8_dones(tr):
+    """the EMA of the logging statistics is exact (SD = 4^8) for at most 8 episode ends: drop later events"""
+    n, keep = 0, []
+    last_snap = 0
+    for i, e in enumerate(tr["events"]):
+        if e["ev"] == "row" and e["done"]:
+            n += 1
+        if n > 8:
+            break
+        keep.append(e)
+        if e["ev"] == "snap":
+            last_snap = len(keep)
+    tr["events"] = keep[:last_snap] if last_snap else keep
 
 
 def violations_from(pid, v, traces, cases, only=None):
